@@ -191,6 +191,24 @@ ENTROPY = {'rand', 'std::rand', 'random', 'drand48', 'lrand48', 'time', 'std::ti
            'std::random_device::random_device', 'std::random_device::operator()', 'getpid'}
 
 
+# C library functions that keep their result or scan state in a hidden process-wide static (not reentrant): the same as a shared
+# mutable static variable, one call site is enough
+NONREENTRANT = {'strtok', 'std::strtok', 'localtime', 'std::localtime', 'gmtime', 'std::gmtime', 'ctime', 'std::ctime', 'asctime',
+                'std::asctime', 'rand', 'std::rand', 'random', 'drand48', 'lrand48', 'mrand48', 'erand48', 'tmpnam', 'std::tmpnam',
+                'strerror', 'std::strerror', 'readdir', 'getpwnam', 'getpwuid', 'gethostbyname', 'ttyname', 'getlogin', 'ecvt',
+                'fcvt', 'gcvt', 'basename', 'dirname', 'mbrtowc', 'wcstombs', 'std::wcstombs', 'getopt', 'lgamma', 'lgammaf', 'lgammal'}
+
+
+def nonreentrant_sites(prog, keys):
+    out = []
+    for key in sorted(keys):
+        fn = prog.functions[key]
+        for c in astu.calls(fn['body']):
+            if c['callee']['qn'] in NONREENTRANT:
+                out.append((fn, c['callee']['qn'], c.get('l')))
+    return out
+
+
 def effect_sites(prog, keys):
     """[(function, callee qn, line, kind)] over the given functions"""
     out = []
